@@ -46,8 +46,19 @@ def to_sympy(e, var, x):
         name = e.func.attr if isinstance(e.func, ast.Attribute) else getattr(e.func, 'id', None)
         if name in FUN and len(e.args) >= 1:
             return FUN[name](to_sympy(e.args[0], var, x))
-        if name in ('array', 'asarray', 'asanyarray', 'float', 'atleast_1d', 'copy') and len(e.args) >= 1:
+        if name in ('array', 'asarray', 'asanyarray', 'float', 'atleast_1d', 'copy', 'positive') and len(e.args) >= 1:
             return to_sympy(e.args[0], var, x)       # value-preserving conversions
+        # function forms of the arithmetic operators
+        if name == 'negative' and len(e.args) == 1:
+            return -to_sympy(e.args[0], var, x)
+        if name == 'square' and len(e.args) == 1:
+            return to_sympy(e.args[0], var, x) ** 2
+        if name == 'reciprocal' and len(e.args) == 1:
+            return 1 / to_sympy(e.args[0], var, x)
+        if name in ('add', 'subtract', 'multiply', 'divide', 'true_divide', 'power') and len(e.args) == 2:
+            a_, b_ = to_sympy(e.args[0], var, x), to_sympy(e.args[1], var, x)
+            return {'add': a_ + b_, 'subtract': a_ - b_, 'multiply': a_ * b_, 'divide': a_ / b_, 'true_divide': a_ / b_,
+                    'power': a_ ** b_}[name]
     raise AnalysisError('closed form: unsupported %s' % normalise(e))
 
 
